@@ -23,7 +23,8 @@ TECHNIQUE = 'exhaustive replay of all TLC model traces on traced/untraced/plain 
 RULE = ('every terminal state of SolveT.tla (full alphabet, N=3 quick / 4 thorough) x trace in {True, [A,B], "A"} x entry in '
         '{solve_t, solve_period, solve} x second solve of the same period; Alias+Tracer classes (both orders) with aliases in trace=, a class with a renamed trace attribute; parser-built catalogue x max_iter with per-pass twin. '
         'non-trivial = traced execution that records at least one snapshot'
-        ' Variables named size/index/span/values, repeated names, a class tracing nothing, an instance-level TRACE_VARIABLES, a second traced run, the table view of each trace.')
+        ' Variables named size/index/span/values, repeated names, a class tracing nothing, an instance-level TRACE_VARIABLES, a second traced run, the table view of each trace.'
+        ' An underscore-prefixed model variable; trace=np.True_.')
 ASSUMPTIONS = c02.ASSUMPTIONS + [
     'a pass that raised before completing leaves no snapshot (the trace stops after the last completed pass)',
     'values compared bit-for-bit; NaN payloads as NumPy stores them',
@@ -430,7 +431,7 @@ def run_dtype_case(case):
     return out
 
 
-_NM_MODEL = fsic.build_model(fsic.parse_model('size = 0.5 * size[-1] + index\nY = size + span * 2\nvalues = Y - 1'))
+_NM_MODEL = fsic.build_model(fsic.parse_model('size = 0.5 * size[-1] + index\nY = size + span * 2\nvalues = Y - 1\n_Ybase = 0.25 * Y'))   # (an underscore-prefixed model variable is a model variable)
 _NM_TRACED = type('TracedNM', (TracerMixin, _NM_MODEL), {})
 _NM_EMPTY = type('TracedNone', (TracerMixin, _NM_MODEL), {'TRACE_VARIABLES': []})
 
@@ -448,7 +449,7 @@ def run_names_case(case):
         return m
 
     cls = _NM_EMPTY if case['trace'] == 'class-empty-list' else _NM_TRACED
-    arg = True if case['trace'] in ('class-empty-list', 'instance-list') else case['trace']
+    arg = True if case['trace'] in ('class-empty-list', 'instance-list') else np.True_ if case['trace'] == 'numpy-true' else case['trace']
     a, b = mk(cls), mk(_NM_MODEL)
     if case['trace'] == 'instance-list':
         a.TRACE_VARIABLES = ['Y', 'size']   # the list of one instance: used for trace=True on that instance
@@ -459,7 +460,7 @@ def run_names_case(case):
     if canon(ra) != canon(rb) or any(canon(a[n]) != canon(b[n]) for n in b.index):
         out.append(('names:differential', canon(rb)[:2], canon(ra)[:2], 'tracing changed the solution (or raised) for variables named like attributes'))
         return out
-    names = [] if case['trace'] == 'class-empty-list' else ['Y', 'size'] if case['trace'] == 'instance-list' else (list(a.names) if arg is True else ([arg] if isinstance(arg, str) else list(arg)))
+    names = [] if case['trace'] == 'class-empty-list' else ['Y', 'size'] if case['trace'] == 'instance-list' else (list(a.names) if (arg is True or case['trace'] == 'numpy-true') else ([arg] if isinstance(arg, str) else list(arg)))
     for pos in range(1, 5):
         tr = a['trace'][pos]
         k = int(a.iterations[pos])
@@ -512,7 +513,7 @@ def run_names_case(case):
 
 
 def run_names(acc, tier):
-    for trace in (True, ['size', 'Y'], 'index', ['values', 'span', 'size'], ['Y', 'size', 'Y'], ('Y', 'Y'), 'class-empty-list', 'instance-list'):   # (trace=[] itself is falsy: tracing off)
+    for trace in (True, ['size', 'Y'], 'index', ['values', 'span', 'size'], ['Y', 'size', 'Y'], ('Y', 'Y'), 'class-empty-list', 'instance-list', 'numpy-true', ['_Ybase', 'Y']):   # (trace=[] itself is falsy: tracing off)
         case = dict(kind='names', trace=trace if not isinstance(trace, tuple) else list(trace))
         acc.evaluations += 1
         acc.nontrivial += 1
